@@ -3,7 +3,7 @@
 From Coq Require Import NArith List Bool Lia ZArith.
 From Coq Require Import ZifyN ZifyBool ZifyNat.
 From DV Require Import Base.Outcome Base.Bytes Base.Names Base.PName C19.Gen C19.Model
-  C19.ProofsOld C19.ProofsNew.
+  C19.ProofsDec C19.ProofsOld C19.ProofsNew.
 Import ListNotations.
 Local Open Scope N_scope.
 Ltac Zify.zify_post_hook ::= Z.div_mod_to_equations.
@@ -176,20 +176,36 @@ Proof.
 Qed.
 
 (* outside the known classes the new reader accepts whatever the old one accepts *)
+Lemma decode_ok_parse_ok p n e : decode_name m p (mlen m) = Ok (n, e) ->
+  exists pn, parse_labels PARSE_FUEL m (mlen m) p 0 p false None = Ok pn.
+Proof.
+  unfold decode_name, parse_ref. generalize PARSE_FUEL. intros F H.
+  destruct (parse_labels F m (mlen m) p 0 p false None) as [pn|x|x|];
+    [eauto|cbn [bind] in H; discriminate..].
+Qed.
+
+Lemma known_none_path start pn :
+  kclass m (12 + start) = KNone ->
+  parse_labels PARSE_FUEL m (mlen m) (12 + start) 0 (12 + start) false None = Ok pn ->
+  exists n e, dpath R_new m (12 + start) (12 + start) 0 n e.
+Proof.
+  unfold kclass. generalize PARSE_FUEL. intros F K P.
+  exact (k_labels_sound m F (12 + start) 0 (12 + start) false None pn (12 + start) ltac:(lia) ltac:(lia) ltac:(lia) P K).
+Qed.
+
 Theorem old_refines_new_outside_known start n e :
   kclass m (12 + start) = KNone ->
   decode_name m (12 + start) (mlen m) = Ok (n, e) ->
   12 <= e /\ new_split c start = Ok (wire_abs n, e - 12).
 Proof.
-  intros K H. pose proof H as H0.
-  unfold decode_name, parse_ref in H0.
-  destruct (parse_labels PARSE_FUEL m (mlen m) (12 + start) 0 (12 + start) false None) as [pn| | |] eqn:P; try discriminate.
-  unfold kclass in K.
-  destruct (k_labels_sound m PARSE_FUEL (12 + start) 0 (12 + start) false None pn (12 + start) ltac:(lia) ltac:(lia) ltac:(lia) P K) as (n' & e' & D).
+  intros K H.
+  destruct (decode_ok_parse_ok _ _ _ H) as (pn & P).
+  destruct (known_none_path _ _ K P) as (n' & e' & D).
   destruct (new_split_complete h c Hh Hwf _ _ _ D) as [S He'].
   destruct (new_refines_old _ _ _ S) as (n'' & H'' & Ew).
-  fold m in H''. rewrite H in H''. inversion H''; subst n'' e.
-  split; [lia|]. rewrite <- Ew. replace (12 + (e' - 12) - 12) with (e' - 12) by lia. exact S.
+  assert (EE : Ok (n, e) = Ok (n'', 12 + (e' - 12))) by (rewrite <- H, <- H''; reflexivity).
+  assert (En : n'' = n) by congruence. assert (Ee : 12 + (e' - 12) = e) by congruence. subst n''.
+  split; [lia|]. rewrite <- Ew. replace (e - 12) with (e' - 12) by lia. exact S.
 Qed.
 
 Theorem agree_outside_known start :
@@ -208,9 +224,44 @@ Proof.
   split; [|split; [apply new_refines_old|exact B]].
   destruct (new_split c start) as [[w e]| | |] eqn:S.
   - destruct (new_refines_old _ _ _ S) as (n & H & _). fold m. rewrite H. reflexivity.
-  - destruct (decode_name m (12 + start) (mlen m)) as [[n e]| | |] eqn:H; try reflexivity.
+  - destruct (decode_name m (12 + start) (mlen m)) as [[n e2]| | |] eqn:H; try reflexivity.
     destruct (B _ _ eq_refl) as [_ S']. discriminate.
   - pose proof (new_split_total c start) as T. rewrite S in T. contradiction.
   - pose proof (new_split_total c start) as T. rewrite S in T. contradiction.
 Qed.
 End AGREE.
+
+(* ================= witnesses and non-vacuity ================= *)
+(* a compressed name both readers accept: contents  01 61 00 | 01 62 c0 0c *)
+Example agree_example :
+  let c := [1;97;0;1;98;192;12] in
+  new_split c 3 = Ok ([1;98;1;97;0], 7) /\
+  decode_name (hdr0 ++ c) 15 (mlen (hdr0 ++ c)) = Ok ([[98];[97]], 19) /\
+  kclass (hdr0 ++ c) 15 = KNone /\ new_parse c 3 = Ok [1;98;1;97;0].
+Proof. vm_compute. auto. Qed.
+
+Example total_example : new_split [192;12] 0 = Err E_PARSE /\ new_split [64] 0 = Err E_PARSE /\
+  new_split [1;97;0] 7 = Err E_PARSE /\ new_parse [0;0] 0 = Err E_PARSE.
+Proof. vm_compute. auto. Qed.
+
+Example path_example : dpath R_new (hdr0 ++ [1;97;0;1;98;192;12]) 15 15 0 [[98];[97]] 19.
+Proof.
+  change [[98];[97]] with (slice (hdr0 ++ [1;97;0;1;98;192;12]) (15 + 1) (15 + 1 + 1) :: [[97]]).
+  eapply dp_label with (b := 1); [reflexivity|lia|lia|cbn; lia|lia|].
+  change 19 with (17 + 2).
+  eapply dp_ptr with (t := 12).
+  - change 12 with (ptr_val 192 12). eapply pc_last with (b' := 1); try reflexivity; try lia.
+    unfold R_new, ptr_val. cbn. lia.
+  - change [[97]] with (slice (hdr0 ++ [1;97;0;1;98;192;12]) (12 + 1) (12 + 1 + 1) :: []).
+    eapply dp_label with (b := 1); [reflexivity|lia|lia|cbn; lia|lia|].
+    apply dp_root. reflexivity.
+Qed.
+
+(* the cap: 255 octets are accepted, 256 rejected, by both readers *)
+Definition lbl63 : bytes := 63 :: repeat 120 63.
+Example cap_example :
+  let n255 := lbl63 ++ lbl63 ++ lbl63 ++ (61 :: repeat 120 61) ++ [0] in
+  let n256 := lbl63 ++ lbl63 ++ lbl63 ++ (62 :: repeat 120 62) ++ [0] in
+  len n255 = 255 /\ is_ok (new_split n255 0) = true /\ is_ok (decode_name (hdr0 ++ n255) 12 267) = true /\
+  len n256 = 256 /\ is_ok (new_split n256 0) = false /\ is_ok (decode_name (hdr0 ++ n256) 12 268) = false.
+Proof. vm_compute. repeat split; reflexivity. Qed.
